@@ -227,8 +227,10 @@ TEXT.update({
                  'get_disjoint_mut that touches the container the pre-check loop ran to its end and no comparison of two '
                  'request keys answered "equal" (those paths panic); all unchecked accesses of the body are discharged '
                  '(O1/O2); the pre-check is shown to compare EVERY pair i < j < J of the request array before the container is '
-                 'touched (positions of the caller\'s array are tracked; PAIRS rule). NOT decided: the position/value '
-                 'agreement with get_mut (e.g. a wrong result for more than 64 requests would not be seen).',
+                 'touched (positions of the caller\'s array are tracked; PAIRS rule); every answer written for request j is the '
+                 'value of a slot whose key was seen to match request j (AGREE rule: the index list only ever receives '
+                 'recorded matches, and an answer must be backed by a pair read back from it). NOT decided: completeness '
+                 '(a present key always gets an answer; e.g. requests skipped through a bit mask that aliases for J > 64).',
         'note': BASE,
     },
     'C14': {
